@@ -79,10 +79,12 @@ def check(tier: str) -> Report:
         n_nb = 4000 if tier == "quick" else 200000
         for _ in range(n_nb):
             name = rng.choice(sorted(factories))
-            base = rng.choice([0.0, rng.uniform(0, 2.0), rng.uniform(0, 0.01)])
-            mx = base + rng.choice([0.0, rng.uniform(0, 40.0)])
+            # incl. extreme-but-valid bases (tiny, subnormal) with very large attempt numbers
+            base = rng.choice([0.0, rng.uniform(0, 2.0), rng.uniform(0, 0.01), 1e-200, 1e-310, 5e-324,
+                               10.0 ** -rng.randint(20, 300)])
+            mx = base + rng.choice([0.0, rng.uniform(0, 40.0), 20.0, 1e300])
             attempt = rng.choice([rng.randint(1, 12), rng.randint(1000, 1100), rng.randint(1700, 1800),
-                                  rng.randint(1, 10 ** 7)])
+                                  rng.randint(1, 10 ** 7), rng.randint(1020, 1030), rng.randint(2000, 6000)])
             prev = rng.choice([None, 0.0, rng.uniform(0, 50.0), 1e9])
             u = rng.choice([0.0, 1.0, rng.random()])
             S.random.uniform = lambda a, b, _u=u: a + (b - a) * _u
@@ -99,11 +101,14 @@ def check(tier: str) -> Report:
                 env = [0.0, mx]
             else:
                 g = growth[name]
-                if base > 0 and attempt * math.log(g) + math.log(base) > math.log(max(mx, 1e-300)) + 1:
+                # cap = min(max_s, base_s * g^attempt), exactly (rationals) unless it is max_s by far
+                if base > 0 and attempt * math.log(g) + math.log(base) > math.log(max(mx, 5e-324)) + 1:
                     cap = mx
+                elif base == 0:
+                    cap = 0.0
                 else:
-                    cap = min(mx, base * g ** min(attempt, 900))
-                ok = math.isfinite(r) and cap / 2 * (1 - 1e-12) <= r <= cap * (1 + 1e-12)
+                    cap = float(min(Fraction(mx), Fraction(base) * Fraction(g) ** attempt))
+                ok = math.isfinite(r) and cap / 2 * (1 - 1e-12) <= r <= cap * (1 + 1e-12) + 5e-324
                 env = [cap / 2, cap]
             if not ok:
                 viol("C18:value-outside-envelope", f"C18/{name}/envelope",
